@@ -387,17 +387,16 @@ Section Proofs.
     Forall retryable os -> add_chain v verifier chain et os = CCtxErr.
   Proof. intros H. unfold ClientModel.add_chain. rewrite (post_retry_all_retryable os H). reflexivity. Qed.
 
-  Lemma temporal_add_chain_reported v verifier chain et os :
-    match temporal_add_chain v verifier chain et os with
-    | CPlainErr => chain = [] \/ exists c rest, chain = c :: rest /\ parse_cert c <> POk     (* before any request *)
-    | res => reported_seq os res /\ add_chain v verifier chain et os = res
-    end.
+  (* the temporal client checks the chain head BEFORE any request, then is add_chain *)
+  Lemma temporal_add_chain_spec v verifier chain et os :
+    (forall c rest, chain = c :: rest -> parse_cert c = POk ->
+       temporal_add_chain v verifier chain et os = add_chain v verifier chain et os) /\
+    ((chain = [] \/ exists c rest, chain = c :: rest /\ parse_cert c <> POk) ->
+       temporal_add_chain v verifier chain et os = CPlainErr).
   Proof.
-    unfold ClientModel.temporal_add_chain. destruct chain as [|c rest]; [left; reflexivity|].
-    destruct (parse_cert c) eqn:Ep; try (right; exists c, rest; split; [reflexivity|congruence]).
-    assert (Hne : c :: rest <> []) by discriminate.
-    pose proof (add_chain_reported v verifier (c :: rest) et os (or_intror Hne)) as R.
-    destruct (add_chain v verifier (c :: rest) et os) as [s|st b| | |]; try (split; [exact R|reflexivity]). contradiction.
+    unfold ClientModel.temporal_add_chain. split.
+    - intros c rest -> Hp. rewrite Hp. reflexivity.
+    - intros [->|(c & rest & -> & Hp)]; [reflexivity|]. destruct (parse_cert c); try reflexivity. contradiction.
   Qed.
 
   (* ---------------- without a key ---------------- *)
